@@ -17,7 +17,7 @@ EXPLANATION = (
     "all public headers and every src/**/*.cpp, and the kernel re-checks forallb benign statics = true (every object with static "
     "storage duration declared in a library file is const with thread-safe initialisation, or written only inside "
     "EnumRegistry<T>::Register, or never written by the library) and that no non-reentrant C function is called. What is only "
-    "observed: ThreadSanitizer runs of T in {2,4,8} threads x seeded random mixes of 18 operation kinds (save/load in four archives, "
+    "observed: ThreadSanitizer runs of T in {2,4,8} threads x seeded random mixes of 20 operation kinds (save/load in four archives, "
     "memory and stream, Convert::To for numbers/enums/chrono/UTF, validation-failing and mismatching loads, loads from shared const "
     "buffers), each compared with a sequential golden run. A new mutable static breaks the theorem; the check then searches for a "
     "TSan report or result mismatch and reports it as the failing schedule, otherwise as a broken obligation.")
